@@ -484,7 +484,12 @@ func DistinctScore(labels []string, stores []*StoreInfo, other *StoreInfo) float
 // MergeLabels merges the passed in labels with origins, overriding duplicated
 // ones.
 func (s *StoreInfo) MergeLabels(labels []*metapb.StoreLabel) []*metapb.StoreLabel {
-	storeLabels := s.GetLabels()
+	// Work on copies: the labels of this (served) store must stay as they are, the caller still has to
+	// validate and to save the merged labels and may fail to.
+	storeLabels := make([]*metapb.StoreLabel, 0, len(s.GetLabels())+len(labels))
+	for _, label := range s.GetLabels() {
+		storeLabels = append(storeLabels, &metapb.StoreLabel{Key: label.Key, Value: label.Value})
+	}
 L:
 	for _, newLabel := range labels {
 		for _, label := range storeLabels {
@@ -493,7 +498,7 @@ L:
 				continue L
 			}
 		}
-		storeLabels = append(storeLabels, newLabel)
+		storeLabels = append(storeLabels, &metapb.StoreLabel{Key: newLabel.Key, Value: newLabel.Value})
 	}
 	res := storeLabels[:0]
 	for _, l := range storeLabels {
